@@ -10,12 +10,19 @@ use crate::util::{doc_ip, expect_equal};
 use crate::wire::{run_scripted, Outbox};
 use gamedig::verif_hook::Proto;
 
+static FIDELITY: std::sync::atomic::AtomicU64 = std::sync::atomic::AtomicU64::new(0);
+
 pub struct C05;
 
 impl Prop for C05 {
     type Case = QuakeState;
 
     fn id(&self) -> &'static str { "C05" }
+
+    fn extra_evidence(&self) -> serde_json::Value {
+        serde_json::json!({"traces_validated_against_impl": FIDELITY.load(std::sync::atomic::Ordering::Relaxed),
+                           "traces_validated_note": "a sample of the cases is replayed over real loopback sockets with the same reference server; the result must equal the scripted-transport result"})
+    }
 
     fn rule(&self) -> String {
         "random server states (version 1-3, variable sets with both spellings of the named keys, 0-64 player lines, quoted/bare names, \
@@ -61,6 +68,16 @@ impl Prop for C05 {
         }
         let req = request(st.version);
         let addr = SocketAddr::new(doc_ip(), 27960);
+        let (req2, reply2) = (req.clone(), reply.clone());
+        let sample = crate::runner::digest(&reply) % 48 == 0;
+        let make = move || {
+            let (req, reply) = (req2.clone(), reply2.clone());
+            Box::new(move |proto: Proto, _peer: &SocketAddr, _nth: usize, data: &[u8], out: &mut Outbox| {
+                if proto == Proto::Udp && data == req.as_slice() {
+                    out.datagram(reply.clone());
+                }
+            }) as Box<dyn crate::wire::Responder>
+        };
         let responder = move |proto: Proto, _peer: &SocketAddr, _nth: usize, data: &[u8], out: &mut Outbox| {
             if proto == Proto::Udp && data == req.as_slice() {
                 out.datagram(reply.clone());
@@ -70,14 +87,23 @@ impl Prop for C05 {
         let f = match st.version {
             1 => {
                 let run = run_scripted(Box::new(responder), || quake::one::query(&addr, None));
+                if sample {
+                    crate::realnet::fidelity("C05", Proto::Udp, make, &run, 1000, |a, t| quake::one::query(&a, t), &FIDELITY);
+                }
                 expect_equal("C05", &entry, &run, &st.expected_one(), &["unused_entries"])
             }
             2 => {
                 let run = run_scripted(Box::new(responder), || quake::two::query(&addr, None));
+                if sample {
+                    crate::realnet::fidelity("C05", Proto::Udp, make, &run, 1000, |a, t| quake::two::query(&a, t), &FIDELITY);
+                }
                 expect_equal("C05", &entry, &run, &st.expected_two(), &["unused_entries"])
             }
             _ => {
                 let run = run_scripted(Box::new(responder), || quake::three::query(&addr, None));
+                if sample {
+                    crate::realnet::fidelity("C05", Proto::Udp, make, &run, 1000, |a, t| quake::three::query(&a, t), &FIDELITY);
+                }
                 expect_equal("C05", &entry, &run, &st.expected_two(), &["unused_entries"])
             }
         };
